@@ -99,6 +99,41 @@ pub fn check_stream(
     })
 }
 
+/// Removes complete lines that are exactly the fragment of a refused record (each at most once);
+/// whatever else a refused record may have caused stays in and is judged by `check_stream`.
+fn drop_refused_fragments(content: &[u8], run: u64, le: &[u8]) -> (Vec<u8>, u64) {
+    let mut out = Vec::with_capacity(content.len());
+    let mut seen = std::collections::HashSet::new();
+    let mut rest = content;
+    let mut n = 0u64;
+    while !rest.is_empty() {
+        let end = rest
+            .windows(le.len())
+            .position(|w| w == le)
+            .map_or(rest.len(), |p| p + le.len());
+        let (line, tail) = rest.split_at(end);
+        rest = tail;
+        let body = line.strip_suffix(le).unwrap_or(line);
+        let is_fragment = std::str::from_utf8(body)
+            .ok()
+            .and_then(|t| t.strip_prefix("FAILPART<"))
+            .and_then(|t| t.strip_suffix('>'))
+            .is_some_and(|id| {
+                let parts: Vec<&str> = id.split('.').collect();
+                parts.len() == 3
+                    && parts[0] == run.to_string()
+                    && parts.iter().all(|p| !p.is_empty() && p.bytes().all(|b| b.is_ascii_digit()))
+                    && seen.insert(id.to_string())
+            });
+        if is_fragment && line.ends_with(le) {
+            n += 1;
+        } else {
+            out.extend_from_slice(line);
+        }
+    }
+    (out, n)
+}
+
 fn gen_wmode(rng: &mut Rng, allow_flusher: bool) -> WMode {
     match rng.below(10) {
         0..=2 => WMode::Direct,
@@ -155,9 +190,12 @@ pub fn run_case(ctx: &mut CaseCtx) -> CaseResult {
         symlink: None,
         use_utc: false,
         max_level: log::LevelFilter::Trace,
-        fmt: FmtK::Raw,
+        fmt: if ctx.case % 4 == 2 { FmtK::RawFallible } else { FmtK::Raw },
         l2: rng.chance(1, 3),
     };
+    // now and then the format function refuses a record after having written a fragment; the
+    // refused records carry no sequence number, the records around them must stay intact
+    let refusing = cfg.fmt == FmtK::RawFallible;
     let noise = rng.chance(2, 3);
     let noise_seed = rng.next();
     let mut res = CaseResult::new(format!(
@@ -201,6 +239,9 @@ pub fn run_case(ctx: &mut CaseCtx) -> CaseResult {
                 .spawn(move || {
                     for s in 0..per_thread {
                         let len = *trng.pick(&sizes);
+                        if refusing && trng.chance(1, 8) {
+                            d.write(log::Level::Info, &format!("FAIL:{run}.{t}.{s}"));
+                        }
                         d.write(log::Level::Info, &flw::msg_id(run, t as u64, s, len));
                     }
                 })
@@ -244,6 +285,13 @@ pub fn run_case(ctx: &mut CaseCtx) -> CaseResult {
                     Err(e) => res.violate("unreadable", format!("C03/unreadable/{facts}"), e),
                     Ok(stream) => {
                         let expected = vec![per_thread; nthreads];
+                        let stream = if refusing {
+                            let (rest, fragments) = drop_refused_fragments(&stream, run, cfg.line_ending());
+                            res.count("refused_record_fragments_seen", fragments);
+                            rest
+                        } else {
+                            stream
+                        };
                         match check_stream(&stream, run, &expected, cfg.line_ending()) {
                             Ok(rep) => {
                                 res.count("lines_checked", rep.lines);
